@@ -172,13 +172,14 @@ C16_Checks(r) ==
         ELSE {})
 
 \* ---------------------------------------------------------------- C18
-\* judged: absolute URLs built from decoded components (act = build, not encoded, with a scheme and a host)
+\* judged: absolute URLs built from decoded components (act = build, not encoded, with a scheme and a host), and what the
+\* non-encoding modifiers (decoded arguments again) make of them: the generator's programs all start with such a build
 C18_Checks(r) ==
-  IF r.act = "build" /\ OutOk(r) /\ Has_(r, "human") /\ "encoded" \notin DOMAIN r.args.kw
-     /\ Scheme5(r.out.ok) # <<>> /\ Netloc5(r.out.ok) # <<>> THEN
+  IF OutOk(r) /\ Has_(r, "human") /\ ~EncodedEntry(r) /\ Scheme5(r.out.ok) # <<>> /\ Netloc5(r.out.ok) # <<>> THEN
      {<<"C18.roundtrip", Ok(r.out.ok.human_repr), C18_RoundTrip(r.out.ok, r.human)>>,
-      <<"C18.readable", TRUE, C18_Readable(r.args.kw, r.out.ok, Range(r.printable))>>,
       <<"C18.only_needed_escapes", TRUE, C18_OnlyNeededEscapes(r.out.ok, Range(r.printable))>>}
+     \cup (IF r.act = "build" THEN {<<"C18.readable", TRUE, C18_Readable(r.args.kw, r.out.ok, Range(r.printable))>>} ELSE {})
+     \cup (IF r.act = "with_host" THEN {<<"C18.readable", TRUE, C18_HostDecoded(r.args.v, r.out.ok)>>} ELSE {})
   ELSE {}
 
 \* ---------------------------------------------------------------- C19
@@ -306,9 +307,10 @@ Attribution(r) ==
   \cup (IF Trig_JoinRootlessBase(r) THEN {"Dev_JoinRootlessBase"} ELSE {})
   \* Dev_HumanReprNfkcUserinfo: user/password contain a character whose NFKC form has a delimiter; human_repr() shows it
   \* unescaped and the constructor's NFKC screen then rejects the string
-  \cup (IF r.act = "build" /\ Has_(r, "human") /\ ~Ok(r.human) /\ IsValueError(r.human)
-           /\ (\/ ("user" \in DOMAIN r.args.kw /\ r.args.kw.user # None /\ HasAny(r.args.kw.user[1], NfkcDelims))
-               \/ ("password" \in DOMAIN r.args.kw /\ r.args.kw.password # None /\ HasAny(r.args.kw.password[1], NfkcDelims)))
+  \cup (IF Has_(r, "human") /\ ~Ok(r.human) /\ IsValueError(r.human) /\ OutOk(r)
+           /\ (\/ ("user" \in DOMAIN r.out.ok /\ Ok(r.out.ok.user) /\ V(r.out.ok.user) # None /\ HasAny(V(r.out.ok.user)[1], NfkcDelims))
+               \/ ("password" \in DOMAIN r.out.ok /\ Ok(r.out.ok.password) /\ V(r.out.ok.password) # None
+                     /\ HasAny(V(r.out.ok.password)[1], NfkcDelims)))
         THEN {"Dev_HumanReprNfkcUserinfo"} ELSE {})
   \* observation-based form of Dev_BracketedNonIPv6LosesBrackets: a stored host with ':' that is not an IPv6 address
   \cup (IF OutOk(r) /\ "raw_host" \in DOMAIN r.out.ok /\ Ok(r.out.ok.raw_host) /\ V(r.out.ok.raw_host) # None
